@@ -64,6 +64,27 @@ func oracle(ops, outs []string) *corr.Violation {
 					return mk(i, "bls-sign-not-over-the-hash", "what Sign returned is not the library's signature over the bytes of the hash")
 				}
 			}
+		case "idcheck":
+			// a pair (public key, id) is accepted only if the id is EXACTLY the hash string of that key
+			if (len(w) == 4 || len(w) == 5) && (out == "true" || out == "false") {
+				who := func(k string) string {
+					if v, ok := eseed[k]; ok {
+						return "e:" + v
+					}
+					return "b:" + secret[k]
+				}
+				sameKey := len(w) == 4 || who(w[2]) == who(w[4])
+				want := sameKey && w[3] == "canon"
+				if out == "true" && !want {
+					if sameKey {
+						return mk(i, "non-canonical-id-accepted:"+w[1], "the spelling '"+w[3]+"' of the client id is accepted for the key; only the exact lower-case hash string is the id")
+					}
+					return mk(i, "other-keys-id-accepted:"+w[1], "the id of another key (spelling '"+w[3]+"') is accepted for the key")
+				}
+				if out == "false" && want {
+					return mk(i, "canonical-id-rejected:"+w[1], "the hash of the public key is not accepted as its client id")
+				}
+			}
 		case "cnew":
 		case "csetpk", "csetscheme", "cdecode", "cstatus":
 			if len(f) == 2 && strings.HasPrefix(f[0], "I") {
